@@ -64,6 +64,13 @@ def histTok (t n : Nat) (f : List Fr) (bufs : List (Nat × Fr)) (toks : List Str
     match b.toNat?.bind look, parseEntries es with
     | some h, some es => (bufs, showRes (recover g1Codec f (hashPt h) es t n))
     | _, _ => (bufs, "bad-op")
+  | ["rr", b, es] =>
+    -- `Recover` twice on the SAME slice object: the second call sees what `sliceUniqMap` left in it
+    match b.toNat?.bind look, parseEntries es with
+    | some h, some es =>
+      (bufs, showRes (recover g1Codec f (hashPt h) es t n) ++ "+"
+        ++ showRes (recover g1Codec f (hashPt h) (uniqInPlace es) t n))
+    | _, _ => (bufs, "bad-op")
   | _ => (bufs, "bad-op")
 
 /-- a step is its `:`-separated tokens -/
